@@ -870,6 +870,10 @@ def run(run: Run):
                         'unknown sheets, truncated and over-long argument lists)')
     _cached_guard(run, 'C06.R16', _pe6.reject_obligations, 'C06.R16', src, g)
     run.floor('C06.R16', 10)
+    run.rule('C06.R17', 'a workbook with a dependency cycle is rejected with a library exception, whole file and from an entry point, end to '
+                        'end by evaluation (shared with C03.R11)')
+    _cached_guard(run, 'C06.R17', _pe6.cycle_obligations, 'C06.R17', src, g)
+    run.floor('C06.R17', 8)
     run.rule('C06.R14', 'a formula that does not fit the grammar is rejected with the parser exception wherever it ends (shared with C05.R2)')
     _cached_guard(run, 'C06.R14', _lx.parser_obligations, 'C06.R14', src, g, _lx.PARSE_PROBES[20:])
     run.floor('C06.R14', 10)
